@@ -77,7 +77,7 @@ theorem good_enumFlat {e : Schema → Value → Option Item} {d : Schema → Ite
       have hmem : (n, fs) ∈ vs := List.mem_of_getElem? hg
       obtain ⟨hn, hi, hgood⟩ := hv (n, fs) hmem
       simp only at hn hi hgood
-      obtain ⟨w, hl, vs', dd, ss, nn⟩ := encArr_good fs hgood 0 fields xs (by omega) hi hr hx
+      obtain ⟨w, hl, vs', dd, ss, nn⟩ := encArr_good fs hgood false 0 fields xs (by omega) hi hr hx
       have hfv := findVariant_get vs 0 pos n fs hd hg
       simp only [Nat.zero_add] at hfv
       refine ⟨mkArray_wf _ (by simp; omega) (by simp [wfList, mkUInt_wf n (by omega), w]), by simp [mkArray_typeOf],
